@@ -16,8 +16,15 @@ storage" / "a dry run performs no write" depend on WHERE a guard stands and not 
   index/indexer.rs   `Indexer::add_with`: `count += blobs`; the pack is added; `count >= MAX_COUNT || elapsed >= MAX_AGE`
                      → `save` (an index file is WRITTEN, now) and `reset`;  `finalize` = `save` (only if non-empty)
 
-`…GuardLate` / `…FinalizeGuardOnly` are NOT the code: they are the two seeded variants (guard below the unindexed-pack
-block; `!dry_run` moved from `add_with` to `finalize`), kept to show that the theorems of `Props/C15` separate them.
+  commands/backup.rs `backup`: `*source == "-"` → `let mut opts = opts.clone(); opts.parent_opts.force = true;` →
+                     `opts.stdin_command` set → `ChildStdoutSource` → `archive(repo, &opts, …)`, else `StdinSource` →
+                     `archive(repo, &opts, …)`; any other source → `LocalSource` → `archive(repo, opts, …)`;
+                     `archive`: `DryRunBackend::new(repo.dbe().clone(), opts.dry_run)` is the backend of the archiver
+  backend/dry_run.rs `DryRunBackend`: `write_bytes` / `remove` return Ok without reaching the backend when `dry_run`
+
+`…GuardLate` / `…FinalizeGuardOnly` / `…FreshStdinOpts` are NOT the code: they are the seeded variants (guard below the
+unindexed-pack block; `!dry_run` moved from `add_with` to `finalize`; options for a stdin source built afresh from the
+stdin-relevant fields), kept to show that the theorems of `Props/C15` separate them.
 Core Lean + other Model files + generated constants only.
 -/
 namespace Rustic.CommandSteps
@@ -128,5 +135,83 @@ def repairIndexFinalizeGuardOnly (appendOnly dry : Bool) (idx : List IdxFile) (p
   let removed := idx.flatMap (fun f => if f.changed && !dry then [Op.remove .index] else [])
   let r := headerLoopNoGuard packs {} []
   (saved ++ r.2 ++ (if !dry && finalizeWrites r.1 then [.write .index] else []) ++ removed, none)
+
+/-! ### `Repository::backup` / `Repository::archive`: from the caller's options to the `DryRunBackend` -/
+
+/-- `BackupOptions` (commands/backup.rs), field by field; values that only matter for WHAT is read are abstract numbers. -/
+structure BackupOpts where
+  stdinFilename : Nat := 0
+  /-- `stdin_command: Option<CommandInput>` -/
+  stdinCommand : Option Nat := none
+  asPath : Option Nat := none
+  noScan : Bool := false
+  dryRun : Bool := false
+  /-- `parent_opts.force` -/
+  parentForce : Bool := false
+  /-- the other fields of `parent_opts` -/
+  parentRest : Nat := 0
+  /-- `ignore_save_opts`, `excludes`, `ignore_filter_opts` (options of a local source) -/
+  localOpts : Nat := 0
+  deriving Repr, DecidableEq
+
+/-- `DryRunBackend` (backend/dry_run.rs): what reaches the repository's backend of the operations issued on it. -/
+def dryRunBackend (dry : Bool) (ops : List ConcreteOp) : List ConcreteOp := if dry then [] else ops
+
+/-- what the archiver issues on ITS backend for a source of a kind under given options (packs, index files, the
+snapshot): any function — the theorems quantify over it. -/
+abbrev Archiver := BackupSource → BackupOpts → List ConcreteOp
+
+/-- commands/backup.rs `archive`: the archiver runs on `DryRunBackend::new(repo.dbe(), opts.dry_run)`. -/
+def archive (o : BackupOpts) (src : BackupSource) (a : Archiver) : List ConcreteOp :=
+  dryRunBackend o.dryRun (a src o)
+
+/-- the options `backup` hands to `archive` (`dash`: `*source == "-"`): a clone with `parent_opts.force` set for a
+stdin source, the caller's options themselves otherwise. -/
+def optsForArchive (dash : Bool) (o : BackupOpts) : BackupOpts :=
+  if dash then { o with parentForce := true } else o
+
+/-- the source `backup` builds. -/
+def sourceOf (dash : Bool) (o : BackupOpts) : BackupSource :=
+  if dash then (if o.stdinCommand.isSome then .stdinCommand else .stdin) else .localPaths
+
+/-- commands/backup.rs `backup` (= `Repository::backup`): the operations that reach the repository. -/
+def backup (dash : Bool) (o : BackupOpts) (a : Archiver) : List ConcreteOp :=
+  let o' := optsForArchive dash o
+  archive o' (sourceOf dash o') a
+
+/-- NOT the code — the seeded variant C15-7: for a stdin source the options are built afresh from the fields that
+"matter for stdin" (`stdin_filename`, `stdin_command`, `as_path`, `no_scan`, `parent_opts` with `force`), everything
+else is `BackupOptions::default()` — `dry_run` among it. -/
+def optsForArchiveFreshStdinOpts (dash : Bool) (o : BackupOpts) : BackupOpts :=
+  if dash then
+    { stdinFilename := o.stdinFilename, stdinCommand := o.stdinCommand, asPath := o.asPath, noScan := o.noScan,
+      parentForce := true, parentRest := o.parentRest }
+  else o
+
+def backupFreshStdinOpts (dash : Bool) (o : BackupOpts) (a : Archiver) : List ConcreteOp :=
+  let o' := optsForArchiveFreshStdinOpts dash o
+  archive o' (sourceOf dash o') a
+
+/-- the public call that backs up from a source of kind `src` with the caller's options `o`:
+`Repository::archive(o, src, …)` for a caller-supplied `ReadSource`; `Repository::backup(o, <paths>, …)` for local paths;
+`Repository::backup(o, "-", …)` with `o.stdin_command` unset (`stdin`) or set to `cmd` (`stdinCommand`). -/
+def backupFrom (src : BackupSource) (cmd : Nat) (o : BackupOpts) (a : Archiver) : List ConcreteOp :=
+  match src with
+  | .readSource => archive o .readSource a
+  | .localPaths => backup false o a
+  | .stdin => backup true { o with stdinCommand := none } a
+  | .stdinCommand => backup true { o with stdinCommand := some cmd } a
+
+/-- the same calls on the seeded variant. -/
+def backupFromFreshStdinOpts (src : BackupSource) (cmd : Nat) (o : BackupOpts) (a : Archiver) : List ConcreteOp :=
+  match src with
+  | .readSource => archive o .readSource a
+  | .localPaths => backupFreshStdinOpts false o a
+  | .stdin => backupFreshStdinOpts true { o with stdinCommand := none } a
+  | .stdinCommand => backupFreshStdinOpts true { o with stdinCommand := some cmd } a
+
+/-- the archiver only issues what the table's `backup` row allows. -/
+def Archiver.ok (a : Archiver) : Prop :=
+  ∀ src o, ∀ op ∈ a src o, op.kind ∈ dataWrites ++ [Op.write .snapshot]
 
 end Rustic.CommandSteps
